@@ -7,6 +7,7 @@ with boundary-aware instants, against the IAU 1982 expression in exact rationals
 """
 import datetime
 import math
+from fractions import Fraction
 from fractions import Fraction as F
 
 from hypothesis import strategies as st
@@ -121,12 +122,28 @@ def _fracs(case, jn, table):
     return sorted(set(table[(jn + i) % len(table)] for i in range(nf)))
 
 
+def _asked_before(e, jn):
+    """On one day in three the object is first asked for other documented views of itself (UTC
+    date, full date, weekday, sidereal time, ...): none of them may change what it answers next."""
+    k = jn % 9
+    if k == 0:
+        e.get_date(utc=True)
+    elif k == 3:
+        e.get_full_date(utc=True)
+        e.year()
+    elif k == 6:
+        e.get_date(leap_seconds=30)
+        e.dow()
+        e.mean_sidereal_time()
+    return e
+
+
 # ------------------------------------------------------------------ weekday
 
 def body_dow(case):
     y = case["year"]
     labels, lab = _labeller()
-    n = nt = nfrac = 0
+    n = nt = nfrac = nlast = 0
     prev = None
     if y > Y_MIN:
         prev = Epoch(y - 1, 12, 31).dow()
@@ -136,7 +153,7 @@ def body_dow(case):
         fr = _fracs(case, jn, FRACS)
         nfrac += len(fr)
         for dd in [d] + [d + f for f in fr]:
-            e = Epoch(y, m, dd)
+            e = _asked_before(Epoch(y, m, dd), jn)
             got = e.dow()
             if (math.floor(e.jde() - 0.5) + 2) % 7 != want:      # x - 0.5 is exact in floats
                 raise Violation("Epoch(%d, %d, %r).jde() = %r is not on that civil day"
@@ -146,6 +163,27 @@ def body_dow(case):
                 raise Violation("Epoch(%d, %d, %r).dow() = %r; floor(JDE + 1.5) mod 7 = %d (JDE %r)"
                                 % (y, m, dd, got, want, e.jde()), site="Epoch.dow", kind="dow",
                                 date=[y, m, dd], got=got, want=want)
+            n += 1
+        # the first instant of the civil day and the last doubles before the next one, built
+        # from the JDE (a date with a day fraction cannot name them)
+        jlast = jn + 0.5
+        for _ in range(1 + jn % 3):
+            jlast = math.nextafter(jlast, 0.0)
+        for jj in (jn - 0.5, jlast):
+            e2 = Epoch(jj)
+            g2 = e2.dow()
+            # Epoch(JDE) goes through the calendar date and may store the neighbouring double:
+            # the weekday is that of the JDE the object reports
+            w2 = int(math.floor(Fraction(e2.jde()) + Fraction(3, 2))) % 7
+            if g2 != w2:
+                raise Violation("Epoch(%r) has JDE %r and dow() = %r; floor(JDE + 1.5) mod 7 = %d (%s "
+                                "of the civil day %d-%02d-%02d)"
+                                % (jj, e2.jde(), g2, w2, "first instant" if jj == jn - 0.5
+                                   else "last doubles", y, m, d),
+                                site="Epoch.dow", kind="dow", date=[y, m, d], jde=jj, got=g2,
+                                want=w2)
+            if jj == jlast and w2 == want:
+                nlast += 1
             n += 1
         if prev is not None and (got - prev) % 7 != 1:
             raise Violation("weekday does not advance by one from the day before %r: %r -> %r"
@@ -169,6 +207,8 @@ def body_dow(case):
             nt += 1 + case.get("nf", 1)
     _year_labels(lab, y)
     lab("with_day_fraction", nfrac)
+    lab("first_instant_of_the_day_by_JDE", len(_days(y)))
+    lab("last_doubles_of_the_day_by_JDE(stored_on_that_day)", nlast)
     if y == 1582:
         lab("days_across_the_reform_gap")
     return {"n": n, "nt": nt, "labels": labels, "show": {"evaluations": n, "dow_31_dec": prev}}
@@ -199,7 +239,7 @@ def body_doy(case):
             raise Violation("Epoch.get_doy%r = %r; JD difference to 1 January + 1 = %d"
                             % (args, got, want), site="Epoch.get_doy", kind="doy",
                             date=[y, m, d], got=got, want=want)
-        e = Epoch(y, m, d)
+        e = _asked_before(Epoch(y, m, d), jn)
         got = e.doy()
         if got != want:
             raise Violation("Epoch(%d, %d, %d).doy() = %r; JD difference to 1 January + 1 = %d"
@@ -212,7 +252,7 @@ def body_doy(case):
                 raise Violation("Epoch.get_doy(%d, %d, %r) = %r; want %r"
                                 % (y, m, d + f, got, want + f), site="Epoch.get_doy",
                                 kind="doy_fraction", date=[y, m, d + f], got=got, want=want + f)
-            e = Epoch(y, m, d + f)
+            e = _asked_before(Epoch(y, m, d + f), jn + 3)
             got = e.doy()
             ref = (e.jde() - jde0) + 1.0          # float rounding <= 1e-9, tolerance 1e-8
             if not abs(got - ref) <= TOL_FRAC:
@@ -290,7 +330,7 @@ def body_yearfrac(case):
     for (m, d) in _days(y):
         jn = cal.jdn(y, m, d)
         for dd in [d] + [d + f for f in _fracs(case, jn, FRACS_YEAR)]:
-            got = Epoch(y, m, dd).year()
+            got = _asked_before(Epoch(y, m, dd), jn + 6).year()
             if math.floor(got) != y or not isinstance(got, float):
                 raise Violation("Epoch(%d, %d, %r).year() = %r: integer part is not the calendar "
                                 "year" % (y, m, dd, got), site="Epoch.year", kind="year_floor",
